@@ -51,15 +51,16 @@ Step ==
   /\ LET e == Tr[l]  W == [objs |-> objs, heap |-> heap, leak |-> leak] IN
      IF e.op = "reset" THEN objs' = Fresh.objs /\ heap' = Fresh.heap /\ leak' = 0 /\ skip' = FALSE
      ELSE IF skip THEN UNCHANGED << objs, heap, leak, skip >>
-     ELSE LET r1 == Res(W, e, 1)
-              good == {k \in 1..Len(Cands) : Res(W, e, k).all = {}}
-              k == IF good = {} THEN 1 ELSE CHOOSE x \in good : \A y \in good : x <= y
-              r == IF k = 1 THEN r1 ELSE Res(W, e, k) IN
-          IF ~r1.ok \/ good = {}
-          THEN /\ PrintT(ToJson([v |-> "MISMATCH", l |-> l, f |-> IF r1.ok THEN r1.all ELSE {"call-not-allowed-by-spec"}]))
-               /\ skip' = TRUE /\ UNCHANGED << objs, heap, leak >>
-          ELSE /\ objs' = r.objs /\ heap' = r.heap /\ leak' = r.leak /\ skip' = FALSE
-               /\ (k > 1 => PrintT(ToJson([v |-> "DEVIATION", l |-> l, f |-> Cands[k]])))
+     ELSE LET r1 == Res(W, e, 1) IN
+          IF r1.ok /\ r1.all = {} THEN objs' = r1.objs /\ heap' = r1.heap /\ leak' = r1.leak /\ skip' = FALSE
+          ELSE LET good == IF r1.ok THEN {k \in 2..Len(Cands) : Res(W, e, k).all = {}} ELSE {} IN
+               IF good = {}
+               THEN /\ PrintT(ToJson([v |-> "MISMATCH", l |-> l, f |-> IF r1.ok THEN r1.all ELSE {"call-not-allowed-by-spec"}]))
+                    /\ skip' = TRUE /\ UNCHANGED << objs, heap, leak >>
+               ELSE LET k == CHOOSE x \in good : \A y \in good : x <= y
+                        r == Res(W, e, k) IN
+                    /\ objs' = r.objs /\ heap' = r.heap /\ leak' = r.leak /\ skip' = FALSE
+                    /\ PrintT(ToJson([v |-> "DEVIATION", l |-> l, f |-> Cands[k]]))
   /\ (l = Len(Tr) => PrintT(ToJson([v |-> "TRACE-END", l |-> l, f |-> {}])))
   /\ l' = l + 1
 Spec == Init /\ [][Step]_<< objs, heap, leak, l, skip >>
